@@ -31,6 +31,8 @@ pub struct Ethernet {
     header: RefCell<EthernetHeader>,   // Header of the ethernet packet
     pub rawdata: RefCell<Rc<Vec<u8>>>, // Raw data of the entire packet
     pub offset: usize,                 // Offset of the ethernet header
+    // the selector as captured: it decides which layer follows, whatever the field is set to later
+    announced: EtherType,
     pub inner: RefCell<Option<Rc<Object>>>, // Inner packet
 }
 
@@ -85,6 +87,7 @@ impl Ethernet {
         let source = MacAddress::from_bytes(&rawdata[off + 6..off + 12]);
         let ethertype = EtherType(((rawdata[off + 12] as u16) << 8) | (rawdata[off + 13] as u16));
         let offset = off + ETHERNET_HEADER_SIZE;
+        let announced = ethertype.clone();
         let header = RefCell::new(EthernetHeader {
             dest: destination,
             source,
@@ -95,11 +98,12 @@ impl Ethernet {
             header,
             rawdata: RefCell::new(rawdata),
             offset,
+            announced,
             inner: RefCell::new(None),
         })
     }
     pub fn get_ethertype_raw(&self) -> EtherType {
-        self.header.borrow().ethertype.clone()
+        self.announced.clone()
     }
     pub fn get_src(&self) -> Rc<Object> {
         Rc::new(Object::Str(self.header.borrow().source.to_string()))
